@@ -148,6 +148,29 @@ def clocks(rep, F, E, G, tag):
     R.guard(body)
 
 
+def collapse_only_nonnegative(R, F, tag):
+    """new_collapsed merges runs of cones into one nonnegative cone.  Only cones that *are* nonnegative orthants may be merged:
+    NonnegativeConeT(d), and the one-dimensional second-order / PSD cones; empty cones are skipped.  Anything else (in particular
+    ZeroConeT(1): an equality) must end the run, otherwise the constraint changes its meaning."""
+    f = F.one(name='collapse')
+    names = {int(v['discr']): v['n'] for v in F.adt('SupportedConeT')['variants'] if v['discr'] is not None}
+    n = 0
+    for val, ret, ev, tr in Walker(f, cut_loops=True).leaves():
+        if ret[0] != 'cut':
+            continue
+        n += 1
+        empty = any(k.startswith('ne(0_usize, nvars(') and v == 0 for k, v in val.items()) or any(k.startswith('eq(0_usize, nvars(') and v == 1 for k, v in val.items())
+        d = [v for k, v in val.items() if k.startswith('discr(peek(arg1)@Some.0')]
+        kind = names.get(d[0]) if len(d) == 1 else None
+        one = any(('@%s.0' % kind) in k and v == 1 for k, v in val.items()) if kind else False
+        ok = empty or kind == 'NonnegativeConeT' or (kind in ('SecondOrderConeT', 'PSDTriangleConeT') and one)
+        R.check(ok, 'collapse-only-orthants|%s%s' % (kind or sorted(k[:30] for k in val)[-1:], tag),
+                'collapse() merges a cone into the running nonnegative cone on a path where it is %s (conditions %s): only nonnegative cones and '
+                'one-dimensional SOC / PSD cones are orthants; merging e.g. ZeroConeT(1) turns an equality into an inequality' % (
+                    kind or 'of undetermined type', {k[-40:]: v for k, v in val.items()}), f.loc())
+    R.check(n >= 3, 'collapse-paths' + tag, 'only %d merging paths of collapse() analysed' % n, f.loc())
+
+
 def input_normalisation(rep, F, tag):
     R = rep.rule('C05.R5', 'P is reduced to its upper triangle and the cone list is collapsed before use')
 
@@ -180,6 +203,7 @@ def input_normalisation(rep, F, tag):
             if len(val) > 6:
                 break
         R.check(ok, 'triu-anchor' + tag, 'no leaf evaluated')
+        collapse_only_nonnegative(R, F, tag)
 
     R.guard(body)
 
